@@ -9,4 +9,5 @@ INVARIANT RecsRun
 INVARIANT OnlyDown
 INVARIANT TwinAgree
 PROPERTY LCSpec
+PROPERTY QuietIsStep
 CHECK_DEADLOCK FALSE
